@@ -222,7 +222,7 @@ func (i StringAnyMapInspector) Capacity(x any, result *int, path ...string) erro
 
 func (i StringAnyMapInspector) Reset(x any) error {
 	var m map[string]any
-	if err := i.indir2(&m, x); err != nil || x == nil {
+	if err := i.indir1(&m, x); err != nil || x == nil {
 		return nil
 	}
 	for k := range m {
